@@ -130,7 +130,9 @@ def check(ctx):
 
     mod = ctx.repo.module(JSON)
     run = mod.func("JsonHistoryGC.run")
-    files_fn = mod.func("JsonHistoryGC.files")
+    # helper-transparent view: the stale-lock rewrite may live in an extracted helper; the order "rewrite, then stat"
+    # and the guards of the appends are the same facts wherever the statements were written
+    files_fn = flat(ctx, mod.func("JsonHistoryGC.files"), depth=2)
     init = mod.func("JsonHistoryGC.__init__")
     st_run = f"{JSON}:JsonHistoryGC.run"
     defs = df.all_defs(run)
@@ -368,18 +370,57 @@ def check(ctx):
     if len(age_cols) != 1:
         raise AnalysisError(f"xonsh/history/sqlite.py:_xh_sqlite_get_records: the age column is not unique ({sorted(age_cols)})")
     age = next(iter(age_cols))
-    gc_fn = sq.func("_xh_sqlite_delete_records")
-    txt = sql_text(gc_fn)
-    used = {
-        "ordered by": cols(r"ORDER BY\s+(\w+)", txt),
-        "minimum of": cols(r"min\(\s*(\w+)\s*\)", txt),
-        "deleted below": cols(r"WHERE\s+(\w+)\s*<", txt),
-    }
-    if not all(used.values()):
-        raise AnalysisError(f"xonsh/history/sqlite.py:_xh_sqlite_delete_records: GC query shape not recognised ({used})")
-    for what, cs in used.items():
-        ctx.ob("R5", "xonsh/history/sqlite.py:_xh_sqlite_delete_records", f"the GC cut is {what} the age column `{age}` that every read orders by (not insertion order)", cs == {age}, key=f"sqlite-gc|{what}", where=loc(gc_fn), detail=f"found {sorted(cs)}")
-    ctx.ob("R5", "xonsh/history/sqlite.py:_xh_sqlite_delete_records", "the kept set is the top of a descending order (newest first) limited to the size to keep", bool(_re.search(r"ORDER BY\s+\w+\s+DESC", txt, _re.I)) and "LIMIT" in txt.upper(), key="sqlite-gc|direction", where=loc(gc_fn))
+    # the GC query is found by its role, not by the name of the function it is written in: the function(s) whose own
+    # SQL text deletes rows below/above a cut on a column (or keeps a `NOT IN (SELECT ...)` set).  Point deletions
+    # (`WHERE sessionid = ?`, `WHERE inp = ? AND rowid != ?`) are not garbage collection.
+    def sql_source(fn_):
+        """the string literals of fn_ in source order; a formatted value (table name ...) is a `{}` placeholder"""
+        lits = []
+        inner = set()
+        for n_ in ast.walk(fn_):
+            if isinstance(n_, ast.JoinedStr):
+                inner |= {id(v_) for v_ in n_.values}
+                lits.append((n_.lineno, n_.col_offset, "".join(v_.value if isinstance(v_, ast.Constant) and isinstance(v_.value, str) else "{}" for v_ in n_.values)))
+        for n_ in ast.walk(fn_):
+            if isinstance(n_, ast.Constant) and isinstance(n_.value, str) and id(n_) not in inner:
+                lits.append((n_.lineno, n_.col_offset, n_.value))
+        return " ".join(t_ for _, _, t_ in sorted(lits))
+
+    RX_CUT = r"DELETE\s+FROM\s+\S+\s+WHERE\s+(?:\w+\s*(?:<(?!>)|>)|\w+\s+NOT\s+IN\s*\(\s*SELECT\b)"
+    positive_example(
+        'def f(c, n):\n    c.execute(f"DELETE FROM {T} WHERE ts <= ?", (n,))\n',
+        lambda t: bool(_re.search(RX_CUT, sql_source(t), _re.I)),
+        "C14.R5 GC query recogniser",
+    )
+    positive_example(
+        'def f(c, n):\n    c.execute(f"DELETE FROM {T} WHERE sid = ? AND rowid != ?", (n,))\n    c.execute(f"DELETE FROM {T} WHERE a <> ?")\n',
+        lambda t: not _re.search(RX_CUT, sql_source(t), _re.I),
+        "C14.R5 GC query recogniser (point deletions are not a cut)",
+    )
+    gc_fns = [(q_, fn_) for q_, fn_ in sq.functions() if _re.search(RX_CUT, sql_source(fn_), _re.I)]
+    if not gc_fns:
+        raise AnchorMissing("xonsh/history/sqlite.py: no function whose SQL deletes rows by a cut on a column (the GC query)")
+
+    def gc_shape(text):
+        return {
+            "ordered by": cols(r"ORDER BY\s+(\w+)", text),
+            "minimum of": cols(r"min\(\s*(\w+)\s*\)", text),
+            "deleted below": cols(r"WHERE\s+(\w+)\s*<", text),
+        }
+
+    for q_, gc_fn in gc_fns:
+        st5 = f"xonsh/history/sqlite.py:{q_}"
+        txt = sql_text(gc_fn)
+        used = gc_shape(txt)
+        if not all(used.values()):
+            # the cut may be computed by a helper of this function: read the query through the helper-transparent view
+            txt = sql_text(flat(ctx, gc_fn, depth=2))
+            used = gc_shape(txt)
+        if not all(used.values()):
+            raise AnalysisError(f"{st5}: GC query shape not recognised ({used})")
+        for what, cs in used.items():
+            ctx.ob("R5", st5, f"the GC cut is {what} the age column `{age}` that every read orders by (not insertion order)", cs == {age}, key=f"sqlite-gc|{what}", where=loc(gc_fn), detail=f"found {sorted(cs)}")
+        ctx.ob("R5", st5, "the kept set is the top of a descending order (newest first) limited to the size to keep", bool(_re.search(r"ORDER BY\s+\w+\s+DESC", txt, _re.I)) and "LIMIT" in txt.upper(), key="sqlite-gc|direction", where=loc(gc_fn))
 
     _lock_release(ctx)
     _limit_parsing(ctx)
@@ -393,25 +434,55 @@ SESSION_END = {
 def _lock_release(ctx):
     """`locked: False` is what makes a file a GC candidate (R1).  Where may it be written?"""
     mod = ctx.repo.module(JSON)
-    n_sites = 0
     mode_attrs = set()
     def unlocks(n):
         return isinstance(n, ast.Assign) and any(isinstance(t, ast.Subscript) and const_value(t.slice, None) == "locked" for t in n.targets) and const_value(n.value, True) is False
 
-    methods = {q for q, _ in mod.functions() if "." in q}
+    funcs = dict(mod.functions())
+    methods = {q for q in funcs if "." in q}
+    views = {}
+
+    def view(q):
+        if q not in views:
+            views[q] = flat(ctx, funcs[q], 2)
+        return views[q]
+
+    def origin(n, q):
+        """where the statement was written: an expanded helper's statement keeps its helper and its line"""
+        return (getattr(n, "_xv_from", None) or (mod.rel, q), n.lineno)
+
+    def visible(q):
+        return {origin(n, q) for n in walk_local(view(q)) if unlocks(n)}
+
+    def callers_of(q):
+        bare = q.split(".")[-1]
+        return [q2 for q2, f2 in funcs.items() if q2 != q and any((call_name(c) or "").split(".")[-1] == bare for c in calls_in(f2))]
+
+    def private_helper(q):
+        """a private method that only the classes of this module call: part of its callers, like a module-level helper"""
+        bare = q.split(".")[-1]
+        return bare.startswith("_") and not bare.startswith("__") and only_called_from(ctx.repo, mod, q, methods)
+
+    # unlock sites that are not judged in the function they are written in, because the test that justifies them is
+    # made by the caller (extracted helper).  They are judged in every caller's helper-transparent view instead; that
+    # each caller really shows them is checked below (otherwise the site would be judged nowhere: analysis error).
+    deferred = {}
+    judged = set()
     for q, fn0 in mod.functions():
         if "." not in q:
             # a module-level helper that unlocks is judged where it is called (expanded into its callers below)
-            if any(unlocks(n) for n in walk_local(fn0)):
+            own = {origin(n, q) for n in walk_local(fn0) if unlocks(n)}
+            if own:
                 ok = only_called_from(ctx.repo, mod, q, methods)
                 ctx.ob("R6", f"{JSON}:{q}", "an unlocking helper is called only from the history classes of this module (and judged there)", ok, key=f"{q}|unlock-helper-escapes", where=loc(fn0))
+                if ok:
+                    deferred[q] = own
             continue
-        fn = flat(ctx, fn0, 2)
+        fn = view(q)
         cfg = None
         for n in walk_local(fn):
             if not unlocks(n):
                 continue
-            n_sites += 1
             cfg = cfg or CFG(fn)
             nodes = cfg.nodes_of(n)
             facts = nfacts(cfg, nodes[0]) if nodes else set()
@@ -422,12 +493,32 @@ def _lock_release(ctx):
                 # role, not spelling: the local(s) holding the boot time are those bound from a *boottime() call
                 boots = names_bound_to_call(fn, lambda nm_: (nm_ or "").split(".")[-1].endswith("boottime")) | {"boottime()"}
                 ok = any("<" in t and any(t.rstrip().endswith("< " + b) or b in t.split("<", 1)[1] for b in boots) for t in pos) and any("locked" in t for t in pos)
-                ctx.ob("R6", st, "the GC clears a lock only for a file that is locked and was created before the last boot", ok, key=f"{q}|unlock-without-boot-test", where=loc(n), detail=f"facts: {sorted(pos)}")
+                text, key = "the GC clears a lock only for a file that is locked and was created before the last boot", f"{q}|unlock-without-boot-test"
+            else:
+                modes = {t for t in pos if t.startswith("self.") and "exit" in t}
+                ok = bool(modes)
+                mode_attrs |= {t.split(".", 1)[1] for t in modes}
+                text, key = "the lock flag is cleared only under the flusher's at-exit mode", f"{q}|unlock-outside-at-exit"
+            if not ok and private_helper(q):
+                deferred.setdefault(q, set()).add(origin(n, q))
                 continue
-            modes = {t for t in pos if t.startswith("self.") and "exit" in t}
-            ok = bool(modes)
-            mode_attrs |= {t.split(".", 1)[1] for t in modes}
-            ctx.ob("R6", st, "the lock flag is cleared only under the flusher's at-exit mode", ok, key=f"{q}|unlock-outside-at-exit", where=loc(n), detail=f"facts: {sorted(pos)}")
+            judged.add(origin(n, q))
+            ctx.ob("R6", st, text, ok, key=key, where=loc(n), detail=f"facts: {sorted(pos)}")
+
+    def require_visible(q, orgs, depth=3):
+        for q2 in callers_of(q):
+            missing = orgs - visible(q2)
+            if missing:
+                raise AnalysisError(f"{JSON}:{q2}: the write of `locked: False` in helper {q} (line {sorted(l_ for _, l_ in missing)[0]}) is not visible in this caller's helper-transparent view; it cannot be judged in its calling context")
+            if "." not in q2:
+                # a module-level caller is not judged itself: its own callers have to show the site
+                if depth == 0:
+                    raise AnalysisError(f"{JSON}:{q}: chain of unlocking helpers too deep")
+                require_visible(q2, orgs, depth - 1)
+
+    for q, orgs in sorted(deferred.items()):
+        require_visible(q, orgs)
+    n_sites = len(judged)
     if n_sites < 2:
         raise AnalysisError(f"{JSON}: only {n_sites} writes of `locked: False` found (expected the flusher and the reboot repair)")
     # the mode is the constructor parameter, and JsonHistory.flush passes its own parameter through
